@@ -5,7 +5,7 @@
 //! trusted: env: LocalHTLCFailureReason is a three-variant skeleton (the two variants the block names + Other(code)); its predicates is_badonion / is_node / is_permanent / is_temporary / is_recipient_failure / get_onion_debug_field are external_body with unconstrained answers (any code table); ErrorHop / RouteHop / TrampolineHop / FailureLearnings are the function-local types re-declared (ErrorHop::{pubkey, short_channel_id} external_body with the bodies' meaning); NetworkUpdate is extracted; PublicKey opaque Copy; R3: log statements removed; R8: `v.get(a..b)` on the failure message -> get_range (Some iff a <= b <= len), `u16::from_be_bytes(s.try_into().expect(..))` -> be16 (unconstrained value)
 //! assume: the path has no trampoline hops: the hop that sent the failure and the failing hop are ErrorHop::RouteHop; when the failure is from the final node the failing hop is that hop (how the caller chooses failing_route_hop)
 //! trusted: assume_specification for core::cmp::max / core::cmp::min (std definitions): present in every unit so that a change that introduces them is verified instead of being rejected by the tool
-//! trusted: closing_hands_back: ChannelContext::force_shutdown: the match inside the loop that drains the holding cell, verbatim as a function of one held update (R15 deep slice; enum HTLCUpdateAwaitingACK extracted over skeleton field types); the second loop (HTLCs announced only in a blocked monitor update) is not sliced
+//! trusted: closing_hands_back: ChannelContext::force_shutdown: the match inside the loop that drains the holding cell, verbatim as a function of one held update (R15 deep slice; enum HTLCUpdateAwaitingACK extracted over skeleton field types); the second loop (HTLCs announced only in a blocked monitor update): the LatestCounterpartyCommitment arm's scan of the update's two HTLC lists (R6: `A.iter().map(..).chain(B.iter().map(..)).any(..)` as two index loops carrying the three closure bodies verbatim; //@oneof: a scan of a single list `E.iter().any(..)` is accepted as an alternative shape and verified against the same contract); the LatestCounterpartyCommitmentTXInfo arm is not sliced
 //! trusted: onchain_failed: ChannelMonitor::get_onchain_failed_outbound_htlcs: the test that recognises the confirmed transaction as a counterparty commitment and the burial test of the funding spend are deep R15 slices; R8: `Some(x) == opt` on txids -> opt_txid_eq (verified helper); walking the HTLCs (closure inside a macro) is dropped and not claimed
 use vstd::prelude::*;
 verus! {
@@ -133,6 +133,82 @@ pub struct AttributionData {}
 #[derive(Clone, Copy)] pub struct ChannelId { pub id: u64 }
 //@extract lightning/src/ln/channel.rs :: enum HTLCUpdateAwaitingACK
 //@strip msgs
+//@end
+impl vstd::std_specs::cmp::PartialEqSpecImpl for HTLCSource { open spec fn obeys_eq_spec() -> bool { true } open spec fn eq_spec(&self, other: &HTLCSource) -> bool { *self == *other } }
+impl PartialEq for HTLCSource { #[verifier::external_body] fn eq(&self, o: &HTLCSource) -> (r: bool) { unimplemented!() } }
+// the HTLCs a not-yet-applied counterparty-commitment update announces: dust ones carry their source next to the HTLC, non-dust ones in a parallel list
+pub struct HTLCOutputInCommitment { pub amount_msat: u64 }
+pub struct CommitmentHTLCData { pub nondust_htlc_sources: Vec<HTLCSource>, pub dust_htlcs: Vec<(HTLCOutputInCommitment, Option<HTLCSource>)> }
+pub struct OutboundHTLCOutput { pub htlc_id: u64, pub source: HTLCSource }
+pub open spec fn announces(d: &CommitmentHTLCData, src: HTLCSource) -> bool {
+    (exists|k: int| 0 <= k < d.dust_htlcs@.len() && (#[trigger] d.dust_htlcs@[k]).1 == Some(src)) || (exists|k: int| 0 <= k < d.nondust_htlc_sources@.len() && #[trigger] d.nondust_htlc_sources@[k] == src)
+}
+//@extract lightning/src/ln/channel.rs :: impl ChannelContext :: fn force_shutdown
+//@oneof blocked_update_scan
+//@slice R15
+    ChannelMonitorUpdateStep::LatestCounterpartyCommitment { htlc_data, .. } => { let dust = htlc_data.dust_htlcs.iter().map(|$p1:any| $b1:seq); let nondust = htlc_data.nondust_htlc_sources.iter().map(|$p2:any| $b2:seq); dust.chain(nondust).any(|$p3:ident| $pr:seq) },
+//@with
+    fn blocked_commitment_update_announces(htlc_data: &CommitmentHTLCData, htlc: &OutboundHTLCOutput) -> bool {
+        // R6: `A.iter().map(|p1| B1).chain(B.iter().map(|p2| B2)).any(|p3| P)` as two index loops carrying B1, B2 and P verbatim (the closures are pure)
+        let mut __any = false;
+        let mut __i: usize = 0;
+        while __i < htlc_data.dust_htlcs.len()
+            invariant __i <= htlc_data.dust_htlcs@.len(), __any == (exists|k: int| 0 <= k < __i && (#[trigger] htlc_data.dust_htlcs@[k]).1 == Some(htlc.source)),
+            decreases htlc_data.dust_htlcs@.len() - __i
+        { let $p1 = &htlc_data.dust_htlcs[__i]; let $p3 = $b1; if $pr { __any = true; } __i = __i + 1; }
+        let ghost __dust = __any;
+        let mut __j: usize = 0;
+        while __j < htlc_data.nondust_htlc_sources.len()
+            invariant __j <= htlc_data.nondust_htlc_sources@.len(), __any == (__dust || (exists|k: int| 0 <= k < __j && #[trigger] htlc_data.nondust_htlc_sources@[k] == htlc.source)),
+            decreases htlc_data.nondust_htlc_sources@.len() - __j
+        { let $p2 = &htlc_data.nondust_htlc_sources[__j]; let $p3 = $b2; if $pr { __any = true; } __j = __j + 1; }
+        __any
+    }
+//@ret r
+//@ensures P C03 an-htlc-we-announced-only-in-a-monitor-update-that-is-still-held-back-counts-as-known-to-that-update-whether-its-output-is-dust-or-not
+    r == announces(htlc_data, htlc.source),
+//@mutant htlc_counted_as_announced_when_any_other_htlc_is
+    dust.chain(nondust).any(|source| source == Some(&htlc.source))
+//@with
+    dust.chain(nondust).any(|source| source != Some(&htlc.source))
+//@end
+//@extract lightning/src/ln/channel.rs :: impl ChannelContext :: fn force_shutdown
+//@oneof blocked_update_scan
+//@slice R15
+    ChannelMonitorUpdateStep::LatestCounterpartyCommitment { htlc_data, .. } => { htlc_data.nondust_htlc_sources.iter().any(|$p3:any| $pr:seq) },
+//@with
+    fn blocked_commitment_update_announces(htlc_data: &CommitmentHTLCData, htlc: &OutboundHTLCOutput) -> bool {
+        // R6 (shape `E.iter().any(|p| P)` over one of the two lists): index loop carrying P verbatim; same contract as the two-list shape
+        let mut __any = false;
+        let mut __i: usize = 0;
+        while __i < htlc_data.nondust_htlc_sources.len()
+            invariant __i <= htlc_data.nondust_htlc_sources@.len(), __any == (exists|k: int| 0 <= k < __i && #[trigger] htlc_data.nondust_htlc_sources@[k] == htlc.source),
+            decreases htlc_data.nondust_htlc_sources@.len() - __i
+        { let $p3 = &htlc_data.nondust_htlc_sources[__i]; if $pr { __any = true; } __i = __i + 1; }
+        __any
+    }
+//@ret r
+//@ensures P C03 an-htlc-we-announced-only-in-a-monitor-update-that-is-still-held-back-counts-as-known-to-that-update-whether-its-output-is-dust-or-not
+    r == announces(htlc_data, htlc.source),
+//@end
+//@extract lightning/src/ln/channel.rs :: impl ChannelContext :: fn force_shutdown
+//@oneof blocked_update_scan
+//@slice R15
+    ChannelMonitorUpdateStep::LatestCounterpartyCommitment { htlc_data, .. } => { htlc_data.dust_htlcs.iter().any(|$p3:any| $pr:seq) },
+//@with
+    fn blocked_commitment_update_announces(htlc_data: &CommitmentHTLCData, htlc: &OutboundHTLCOutput) -> bool {
+        // R6 (shape `E.iter().any(|p| P)` over one of the two lists): index loop carrying P verbatim; same contract as the two-list shape
+        let mut __any = false;
+        let mut __i: usize = 0;
+        while __i < htlc_data.dust_htlcs.len()
+            invariant __i <= htlc_data.dust_htlcs@.len(), __any == (exists|k: int| 0 <= k < __i && (#[trigger] htlc_data.dust_htlcs@[k]).1 == Some(htlc.source)),
+            decreases htlc_data.dust_htlcs@.len() - __i
+        { let $p3 = &htlc_data.dust_htlcs[__i]; if $pr { __any = true; } __i = __i + 1; }
+        __any
+    }
+//@ret r
+//@ensures P C03 an-htlc-we-announced-only-in-a-monitor-update-that-is-still-held-back-counts-as-known-to-that-update-whether-its-output-is-dust-or-not
+    r == announces(htlc_data, htlc.source),
 //@end
 pub struct ClosingCtx { pub channel_id: ChannelId }
 impl ClosingCtx {
